@@ -254,6 +254,115 @@ def image_calibration(c, res):
                     'TABLE(image calibration per ISM band, data sheet 9-2)', instance='sx126x calibrate_image, %d..%d MHz: 0x98 0x%02X 0x%02X' % (lo // 1000000, hi // 1000000, f1, f2))
 
 
+# ---- per-value cases of set_modulation_params: which of the operation's transaction shapes belong to which bandwidth / spreading
+# factor / coding rate. Data sheets: SX1276 RegModemConfig1 = Bw[7:4] CodingRate[3:1] ImplicitHeader[0], RegModemConfig2 =
+# SpreadingFactor[7:4]; SX1272 RegModemConfig1 = Bw[7:6] CodingRate[5:3] ..; SX126x SetModulationParams(SF, BW, CR, LDRO);
+# SF6 needs DetectionOptimize 0x05 / DetectionThreshold 0x0C, the other spreading factors 0x03 / 0x0A; SX1276 errata 2.1 (500 kHz
+# sensitivity: 0x36 = 0x02 and 0x3A = 0x64 / 0x7F only at 500 kHz) and 2.3 (spurious reception: AutomaticIFOn set at 500 kHz, cleared
+# with IfFreq 0x40 / 0x00 from 62.5 to 250 kHz; below 62.5 kHz this driver leaves the defaults: documented difference);
+# SX126x 15.1 (register 0x0889 bit 2 = 0 exactly at 500 kHz).
+MP = 'lora_phy::mod_params::ModulationParams'
+MP_FIELDS = {'bandwidth': ('lora_modulation::Bandwidth', 'bw'), 'spreading_factor': ('lora_modulation::SpreadingFactor', 'sf'), 'coding_rate': ('lora_modulation::CodingRate', 'cr')}
+MID_BW = ('_62KHz', '_125KHz', '_250KHz')
+
+
+def _b(n, w):
+    return [str((n >> k) & 1) for k in range(w - 1, -1, -1)]
+
+
+def _case_expected(chip, field, value, base, codes):
+    """expected transaction shapes of set_modulation_params when `field` = `value`, from the operation's reviewed shapes `base`"""
+    fam = 'sx127x' if chip in ('sx1276', 'sx1272') else chip
+    key = {'bandwidth': chip + '::bw', 'spreading_factor': fam + '::sf', 'coding_rate': fam + '::cr'}[field]
+    code = codes[key].get(value)
+    if not isinstance(code, int):
+        return []                                           # refused with an error before any bus traffic
+    out = []
+    for sh in base:
+        kind, hdr = sh[0], list(sh[1])
+        bl = [_bits_of(t) for t in hdr]
+        keep = True
+        if chip in ('sx1276', 'sx1272') and kind == 'write':
+            reg = hdr[0]
+            if field == 'spreading_factor':
+                if reg == '0x9E' and bl[1][:4] == ['?'] * 4:
+                    bl[1][:4] = _b(code, 4)
+                if reg == '0xB1' and bl[1][5:] in (['1', '0', '1'], ['0', '1', '1']):
+                    keep = (bl[1][5:] == ['1', '0', '1']) == (value == '_6')
+                if reg == '0xB7':
+                    keep = (hdr[1] == '0x0C') == (value == '_6')
+            if chip == 'sx1276':
+                if field == 'bandwidth':
+                    if reg == '0x9D' and bl[1][:4] == ['?'] * 4:
+                        bl[1][:4] = _b(code, 4)
+                    if reg in ('0xAF', '0xB0') or (reg == '0xB1' and bl[1][0] == '0' and bl[1][1].startswith('R')):
+                        keep = value in MID_BW
+                    if reg == '0xB1' and bl[1][0] == '1' and bl[1][1].startswith('R'):
+                        keep = value == '_500KHz'
+                    if (reg == '0xB6' and hdr[1] == '0x02') or reg == '0xBA':
+                        keep = value == '_500KHz'
+                if field == 'coding_rate' and reg == '0x9D' and bl[1][0].startswith('R') and bl[1][7].startswith('R'):
+                    keep = bl[1][4:7] == _b(code, 3)
+            else:
+                if reg == '0x9D' and field == 'bandwidth':
+                    keep = bl[1][:2] == _b(code, 2)
+                if reg == '0x9D' and field == 'coding_rate':
+                    keep = bl[1][2:5] == _b(code, 3)
+        if chip == 'sx126x' and kind == 'write':
+            if hdr[0] == '0x8B':
+                idx = {'spreading_factor': 1, 'bandwidth': 2, 'coding_rate': 3}[field]
+                if '?' in bl[idx]:
+                    bl[idx] = _b(code, 8)
+                else:
+                    keep = bl[idx] == _b(code, 8)
+            if hdr[:3] == ['0x0D', '0x08', '0x89'] and field == 'bandwidth':
+                keep = (bl[3][5] == '0') == (value == '_500KHz')
+        if keep:
+            toks = []
+            for b_ in bl:
+                toks.append('0x%02X' % int(''.join(b_), 2) if all(x in '01' for x in b_) and len(b_) == 8 else ('any' if b_ == ['?'] * 8 else '[' + ' '.join(b_) + ']') if len(b_) == 8 else b_[0])
+            out.append([kind, toks] + [list(x) for x in sh[2:]])
+    return out
+
+
+def modulation_cases(c, res, want):
+    prog = c.prog
+    ops = {'sx1276': (CHIPS['sx127x'] + 'set_modulation_params', {'C': SX127X_VARIANTS['sx1276']}), 'sx1272': (CHIPS['sx127x'] + 'set_modulation_params', {'C': SX127X_VARIANTS['sx1272']}),
+           'sx126x': (CHIPS['sx126x'] + 'set_modulation_params', None)}
+    n = 0
+    for chip, (path, subst) in sorted(ops.items()):
+        bl = prog.by_short.get(path) or []
+        if len(bl) != 1:
+            raise CheckError('anchor: %s' % path)
+        body = bl[0]
+        pis = [i for i in range(1, body.argc + 1) if body.local_name(i) == 'mdltn_params' and body.locals[i].endswith(MP)]
+        if len(pis) != 1:
+            raise CheckError('anchor: mdltn_params parameter of %s' % path)
+        pi = pis[0]
+        base = want['transactions'].get('%s::set_modulation_params' % chip)
+        if base is None:
+            raise CheckError('table: no reviewed shapes for %s::set_modulation_params' % chip)
+        for field, (en, _) in sorted(MP_FIELDS.items()):
+            for vi, v in enumerate(prog.adts[en]['variants']):
+                def setup(an_, fr, st, field=field, en=en, vi=vi):
+                    nm = 'p%d_mdltn_params*' % pi
+                    st.mem[('obj', nm)] = ('adt', MP, frozenset([0]), {(0, field): ('adt', en, frozenset([vi]), {}, None, ())}, nm, ())
+                    st.env[(fr.id, pi)] = ('ref', ('O', nm, ()))
+                    st.lo[nm + '.low_data_rate_optimize'], st.hi[nm + '.low_data_rate_optimize'] = 0, 1
+                    st.lo[nm + '.frequency_in_hz'], st.hi[nm + '.frequency_in_hz'] = 137000000, 1020000000
+                got = [k for k, _ in spi.transactions(prog, body, setup=setup, subst=subst)]
+                exp = _case_expected(chip, field, v['name'], base, want['codes'])
+                extra = [x for x in got if not any(tx_refines(x, y) for y in exp)]
+                missing = [json.dumps(y) for y in exp if not any(tx_refines(x, y) for x in got)]
+                n += 1
+                res.require(not extra and not missing, 'C13:%s::set_modulation_params{%s=%s}' % (chip, field, v['name']),
+                            '%s set_modulation_params with %s = %s: issued but not what the data sheet prescribes for this value: %s; prescribed but not issued: %s' % (chip, field, v['name'], extra[:3], missing[:3]),
+                            path, 'TABLE(per-value transactions: code placement, SF6 detection settings, bandwidth-specific errata)',
+                            instance='%s set_modulation_params, %s = %s: %d shape(s)' % (chip, field, v['name'], len(exp)))
+    if n < 60:
+        raise CheckError('floor: modulation parameter cases %d < 60' % n)
+
+
 def _bits_of(tok):
     if tok == 'any':
         return ['?'] * 8
@@ -337,6 +446,7 @@ def run(tier):
     freq_formula(c, res)
     pa_tables(c, res)
     image_calibration(c, res)
+    modulation_cases(c, res, want)
     # FIELD-FIT: a value packed into a command / register byte by a constant left shift must fit the field - no set bit
     # may be shifted out of the type (Rust does not check this). Judged with the interval of the operand in every
     # context of the analysed operations (all arguments and chip bytes symbolic).
